@@ -120,3 +120,33 @@ Example c11_history_nonvacuous :
   option_map j_start (api_job w1) = Some (Some 100) /\
   option_map (fun a => (j_start a, map tr_name (j_tasks a))) (api_job w2) = Some (Some 100, ["j-aaaaaa-0"%string]).
 Proof. vm_compute. split; reflexivity. Qed.
+
+(** REFUTED on the faithful model (finding F4, finished-Pod variant): "a recorded finish time
+    never changes" is false over histories with a lagging Pod cache.  The Pod has finished at
+    110 in the API; the pass at 120 does not see it in its cache yet and records the task as
+    lost with finish time 120; when the cache has caught up, the pass at 130 rewrites the
+    recorded finish time to 110 (and the lost task becomes a succeeded one).  The same history
+    runs on the implementation as the corpus case F4-finished-pod-recorded-lost-then-corrected
+    of the job stream (model and code agree on it; the monitor reports it as the known finding
+    F4, C09/lost-while-exists, and classifies the changed finish time as its consequence). *)
+Definition f4_job : job :=
+  mkJob ["aaaaaa"%string] false AllSuccessful 2 0 false false None false None None false true None (Some 10)
+        [] 0 0 None (CWaiting WPendingCreation) PhStarting SWaiting.
+Definition recorded_finish (w : jworld) (n : string) : option Z :=
+  match api_job w with
+  | Some a => match filter (fun r => String.eqb (tr_name r) n) (j_tasks a) with r :: _ => tr_finish r | [] => None end
+  | None => None
+  end.
+Theorem c11_finish_time_stable_refuted :
+  exists cfg j0 now ops1 ops2 n t1 t2,
+    let w1 := jrun_world cfg (init_jworld j0 now) ops1 in
+    let w2 := jrun_world cfg w1 ops2 in
+    recorded_finish w1 n = Some t1 /\ recorded_finish w2 n = Some t2 /\ t1 <> t2.
+Proof.
+  exists (mkCfg (Some 900) (Some 900) (Some 3600)), f4_job, 100,
+    [JSync; JAdvanceJob 5; JKubelet "j-aaaaaa-0" KSchedule; JClock 105; JKubelet "j-aaaaaa-0" KRun; JClock 110;
+     JKubelet "j-aaaaaa-0" KSucceed; JClock 120; JSync],
+    [JAdvanceJob 5; JAdvancePods 9; JClock 130; JSync], "j-aaaaaa-0"%string, 120, 110.
+  vm_compute. repeat split; discriminate.
+Qed.
+Print Assumptions c11_finish_time_stable_refuted.
